@@ -130,6 +130,51 @@ def rule_range(repo: Repo, rid: str, spec: str, guarded_callees=None) -> RuleRes
     return r
 
 
+def _equality_redundant(repo: Repo, f: FuncInfo, n: ast.Compare) -> bool:
+    """`a == b` next to `a.is_sub_type(b)` of the same two types: equal types are subtypes of each other, so the comparison is harmless
+    exactly when the function behaves for (equal, subtype) as it does for (not equal, subtype) -- decided by valuation"""
+    p = L.prov(repo, f)
+    try:
+        la, lb = p.trace(n.left), p.trace(n.comparators[0])
+    except KeyError:
+        return False
+    subs = {}
+    for c in L.calls_in(f.node):
+        if isinstance(c.func, ast.Attribute) and c.func.attr == "is_sub_type" and len(c.args) == 1:
+            try:
+                ra, rb = p.trace(c.func.value), p.trace(c.args[0])
+            except KeyError:
+                continue
+            if (ra, rb) in ((la, lb), (lb, la)):
+                subs[id(c)] = c
+    if not subs:
+        return False
+
+    def matcher(e):
+        if e is n:
+            return "eq" if isinstance(n.ops[0], ast.Eq) else "!eq"
+        if id(e) in subs:
+            return "sub"
+        return None
+
+    G = L.Guards(f, matcher)
+    g = G.g
+
+    def outcome(val):
+        seen = G.reach(val)
+        out = set()
+        for nd in seen:
+            if g.kind[nd] == "return":
+                rv = g.stmt[nd].value
+                v = G.value(val, rv, seen) if rv is not None else None
+                out.add(("return", v if isinstance(v, bool) or v is None else nd))
+            elif g.kind[nd] == "raise":
+                out.add(("raise", nd))
+        return out
+
+    return outcome({"eq": True, "sub": True}) == outcome({"eq": False, "sub": True})
+
+
 def rule_conform(repo: Repo, rid: str = "C06.conform", only_funcs: Optional[Iterable[str]] = None, floor: int = 3) -> RuleResult:
     r = RuleResult(rid, "conformance of an object's type to a required type is decided by is_sub_type, never by ==/!= on types or type names",
                    "forall / fact checking range over the type and its subtypes")
@@ -142,6 +187,9 @@ def rule_conform(repo: Repo, rid: str = "C06.conform", only_funcs: Optional[Iter
                 a, b = _is_type_expr(repo, f, n.left), _is_type_expr(repo, f, n.comparators[0])
                 if a and b:
                     r.site(L.site(f, n, "type comparison"))
+                    if _equality_redundant(repo, f, n):
+                        r.ok({"function": f.qn, "test": unparse(n), "redundant_with": "is_sub_type of the same two types"})
+                        continue
                     r.fail(Finding(rid, f, "type-equality", f"{unparse(n)} compares types for (in)equality: objects of a subtype are "
                                    f"treated as non-conforming; use is_sub_type", node=n))
             if isinstance(n, ast.Call) and isinstance(n.func, ast.Attribute) and n.func.attr == "is_sub_type":
